@@ -12,11 +12,12 @@ PROPS = ["C02/Props.v"]
 DRIVER = "c02_driver.py"
 CLAUSE = {2: "called-without-change", 3: "called-for-rejected-or-read", 4: "change-not-notified",
           5: "assignment-undone", 6: "old-new-untruthful", 7: "mechanisms-disagree"}
-NPOOL, REJ, ALIAS = 15, 9, 10
+NPOOL, REJ, ALIAS = 16, 9, 10
 POOL_NAMES = ["Eq(1)#a", "Eq(1)#b", "Eq(2)", "nan#a", "nan#b", "EqRaises", "None", "[1]#a", "[1]#b", "rejected", "converted-to-Eq(1)#a",
-              "Incoherent", "0", "0.0", "ArrayLike(no truth value)"]
+              "Incoherent", "0", "0.0", "ArrayLike(no truth value)", "BadRepr(str/repr raise)"]
 MECH = {"any": "StaticAny", "changed": "StaticChanged", "fired": "StaticFired", "otc": "Otc", "otcany": "OtcAny",
         "obs": "Observe", "dotc": "Otc", "dobs": "Observe", "otcm": "Otc", "obsm": "Observe"}
+ONCE = ("otc_once", "otcany_once", "obs_once")      # self-unregistering handlers: environment, not in the model's handler list
 STATIC_ID = {"any": 0, "changed": 1, "fired": 2, "dotc": 3, "dobs": 4}
 STATICS = ("any", "changed", "fired", "dotc", "dobs")
 CMP = {"T": C("CTrue"), "F": C("CFalse"), "R": C("CRaise")}
@@ -27,7 +28,7 @@ def handlers_of(case):
     """Notifier-list order: class-level static wrappers (anytrait, _x_changed, _x_fired — has_traits.py l.626-631),
     then the dynamic ones on the trait in registration order, then the object-level ones (call_notifiers l.2296-2305)."""
     hs = [(STATIC_ID[s], s) for s in STATICS if s in case["statics"]]      # decorated handlers are hooked up in __init__
-    hs += [(10 + i, m) for i, m in enumerate(case["dyn"]) if m != "otcany"]
+    hs += [(10 + i, m) for i, m in enumerate(case["dyn"]) if m != "otcany" and m not in ONCE]
     hs += [(10 + i, m) for i, m in enumerate(case["dyn"]) if m == "otcany"]      # the object's notifier list comes last
     return hs
 
@@ -57,12 +58,16 @@ def to_term(case, ob):
             bool(case.get("orig")) and case["kind"] == "normal")
     h = []
     for op, st in zip(case["ops"], ob["steps"]):
-        o = C("Assign", Nat(op[1])) if op[0] == "Assign" else C(op[0])
+        o = C(op[0], Nat(op[1])) if op[0] in ("Assign", "QuietAssign") else C(op[0])
         out = st["out"]
         if case["kind"] == "event" and op[0] == "Read" and out.startswith("Other"):
             out = "Ok"          # anything but AttributeError is wrong for an Event read; Ok triggers clause 1
+        sink = st["sink"]
+        if case.get("sinkmode") == "default":
+            # default exception handlers: routing is not observable; take it as the calls of the raising handlers
+            sink = [c for c in st["calls"] if c[0] in case["raises"]]
         h.append((o, C("mkObs", outcome_t(out), opt(None if st["slot"] is None else Nat(st["slot"])),
-                       [call_t(c) for c in st["calls"]], [call_t(c) for c in st["sink"]])))
+                       [call_t(c) for c in st["calls"]], [call_t(c) for c in sink])))
     return (cfg, h)
 
 
@@ -99,7 +104,7 @@ def describe(case, ob, step, clause):
 
 def nontrivial(case, ob):
     sig = json.dumps([case["kind"], case["mode"], case["default"], case["statics"], case["dyn"], case["raises"], case["ops"],
-                      bool(case.get("orig")), case.get("variant", "")])
+                      bool(case.get("orig")), case.get("variant", ""), case.get("sinkmode", "")])
     nt = any(s["calls"] or s["out"] != "Ok" for s in ob["steps"])
     return sig, nt
 
@@ -111,9 +116,17 @@ def gen_case(rnd, ctx, maxlen):
     default = rnd.choice([6, 6, 0, 3])
     statics = [s for s in ("any", "changed", "fired") if rnd.random() < 0.5] + [s for s in ("dotc", "dobs") if rnd.random() < 0.25]
     dyn = [rnd.choice(["otc", "obs", "otc", "obs", "otcany", "otcm", "obsm"]) for _ in range(rnd.choice([0, 1, 2, 2, 3, 4]))]
+    if rnd.random() < 0.15:
+        statics = [s for s in statics if s == "dobs"][:0]      # object-level handlers only: the trait has no notifier list
+        dyn = ["otcany"] * rnd.randint(1, 3)
     if not statics and not dyn and rnd.random() < 0.8:
         dyn = ["otc", "obs"]
-    ids = [STATIC_ID[s] for s in statics] + [10 + i for i in range(len(dyn))]
+    if (statics or dyn) and rnd.random() < 0.3:
+        # self-unregistering handlers somewhere in the registration order (only next to handlers that stay)
+        for _ in range(rnd.randint(1, 2)):
+            once = "otcany_once" if all(m == "otcany" for m in dyn) and not statics else rnd.choice(ONCE)
+            dyn.insert(rnd.randrange(len(dyn) + 1), once)
+    ids = [STATIC_ID[s] for s in statics] + [10 + i for i, m in enumerate(dyn) if m not in ONCE]
     raises = sorted(rnd.sample(ids, min(len(ids), rnd.choice([0, 0, 1, 1, 2]))))
     ops = []
     cur = None
@@ -130,7 +143,14 @@ def gen_case(rnd, ctx, maxlen):
             ctx.count("op:Delete")
             cur = None
             continue
-        if r < 0.33 and cur is not None:
+        if r < 0.24:
+            v = REJ if rnd.random() < 0.4 else rnd.randrange(NPOOL)
+            ops.append(["QuietAssign", v])
+            ctx.count("op:QuietAssign:" + ("rejected" if v == REJ else "accepted"))
+            if v != REJ:
+                cur = v
+            continue
+        if r < 0.38 and cur is not None:
             v = cur                                         # the identical object again
         elif r < 0.55 and cur is not None:
             g = next((g for g in groups if cur in g), [cur])
@@ -157,8 +177,11 @@ def gen_case(rnd, ctx, maxlen):
         r = rnd.random()
         variant = "any" if r < 0.15 else "ddef" if (r < 0.3 and kind == "normal") else ""
     ctx.count("trait-variant:" + (variant or "validating-trait-type"))
+    sinkmode = "default" if rnd.random() < 0.25 else "recording"
+    ctx.count("exception-handler:" + sinkmode)
+    ctx.count("self-unregistering-handlers:%d" % sum(1 for m in dyn if m in ONCE))
     return dict(kind=kind, mode=mode, default=default, statics=statics, dyn=dyn, raises=raises, ops=ops, orig=orig,
-                variant=variant)
+                variant=variant, sinkmode=sinkmode)
 
 
 def corpus():
@@ -182,6 +205,22 @@ def corpus():
         for variant in ("any", "ddef"):
             cs.append(dict(kind=kind, mode=mode, default=0, statics=["any", "changed"], dyn=["obs", "otc"], raises=[10],
                            variant=variant, ops=allops))
+    quiet = [["Assign", 0], ["QuietAssign", 2], ["Assign", 0], ["QuietAssign", 9], ["Assign", 2], ["Read"], ["QuietAssign", 2],
+             ["Assign", 1], ["Delete"], ["QuietAssign", 9], ["Assign", 3]]
+    for kind, mode in (("normal", "none"), ("normal", "identity"), ("normal", "equality"), ("event", "equality")):
+        # quiet sets (accepted and rejected) between ordinary assignments
+        cs.append(dict(kind=kind, mode=mode, default=6, statics=["changed"], dyn=["obs", "otc", "otcany"], raises=[], ops=quiet))
+        # the library's default exception handlers, values whose str()/repr() raise, every mechanism raising in turn
+        for r in ([0], [1], [2], [10], [11], [12], [3, 4]):
+            cs.append(dict(kind=kind, mode=mode, default=6, statics=["any", "changed", "fired", "dotc", "dobs"],
+                           dyn=["otc", "obs", "otcany"], raises=r, sinkmode="default",
+                           ops=[["Assign", 15], ["Assign", 0], ["Assign", 15], ["Assign", 15], ["Assign", 2]]))
+        # self-unregistering handlers in front of handlers that stay: object-level list only / trait-level list / both
+        for statics, dyn in (([], ["otcany_once", "otcany", "otcany_once", "otcany"]),
+                             ([], ["otc_once", "otc", "obs_once", "obs"]),
+                             (["changed"], ["otcany_once", "otc_once", "obs_once", "otcany", "otc", "obs"])):
+            cs.append(dict(kind=kind, mode=mode, default=6, statics=statics, dyn=dyn, raises=[],
+                           ops=[["Assign", 0], ["Assign", 2], ["Assign", 0]]))
     # traits that store the ORIGINAL value (Expression / AdaptsTo style): trigger of F22 (repaired) so that a reversal is detected
     for mode in ("none", "identity", "equality"):
         cs.append(dict(kind="normal", mode=mode, default=6, statics=["changed"], dyn=["obs", "otc"], raises=[], orig=True,
